@@ -88,9 +88,7 @@ func appendPosition(src PositionRanges, line, column int) PositionRanges {
 
 func NewPositionRange(lines []string, val *yaml.Node, minColumn int) (offsets PositionRanges) {
 	if len(val.Value) == 0 {
-		return PositionRanges{
-			{Line: val.Line, FirstColumn: val.Column, LastColumn: val.Column},
-		}
+		return emptyPositionRange(lines, val)
 	}
 
 	var needIndex, lineSpaces, valSpaces int
@@ -152,7 +150,24 @@ func NewPositionRange(lines []string, val *yaml.Node, minColumn int) (offsets Po
 	}
 
 END:
+	if len(offsets) == 0 {
+		// Nothing was matched (value is made only of line breaks), point at the node itself
+		// so that we never return an empty list of positions.
+		return emptyPositionRange(lines, val)
+	}
 	return offsets
+}
+
+// emptyPositionRange points at the node itself. An implicit null value at the very
+// end of the document is placed by the YAML parser on the line after the last one.
+func emptyPositionRange(lines []string, val *yaml.Node) PositionRanges {
+	line := val.Line
+	if len(lines) > 0 && line > len(lines) {
+		line = len(lines)
+	}
+	return PositionRanges{
+		{Line: line, FirstColumn: val.Column, LastColumn: val.Column},
+	}
 }
 
 func countLeadingSpace(line string) (i int) {
